@@ -278,7 +278,7 @@ VARIANTS += [
 PRM = "ipa-core/src/protocol/prss/mod.rs"
 VARIANTS += [
     # ---------------- C06 ----------------
-    dict(prop="C06", name="shift-8", expect="RANGE-index|offset-fits-below-shift",
+    dict(prop="C06", name="shift-8", expect="RANGE-index|packing-injective",
          edits=[dict(file=PRM, find="            (u64::from(value.index.0) << 32) + u64::from(value.offset)", replace="            (u64::from(value.index.0) << 8) + u64::from(value.offset)")]),
     dict(prop="C06", name="offset-unchecked", expect="RANGE-index|new-rejects-large-offset",
          edits=[dict(file=PRM, find="            if this.offset <= Self::MAX_OFFSET {\n                Ok(this)\n            } else {\n                Err(PrssIndexError::OutOfRange(this.into()))\n            }", replace="            Ok(this)")]),
@@ -847,4 +847,11 @@ VARIANTS += [
          edits=[dict(file=CBF, find="        if range.end() < range.start() {", replace="        if range.start() > range.end() {")]),
     dict(prop="C14", name="ring-take-advances-by-read-size", expect="RING-ops|take:copies-what-it-consumes",
          edits=[dict(file=CBF, find="        self.read = self.inc(self.read, delta);", replace="        self.read = self.inc(self.read, self.read_size);")]),
+]
+
+VARIANTS += [
+    dict(prop="C03", name="challenge-rewritten-equivalently", benign=True,
+         edits=[dict(file="ipa-core/src/helpers/hashing.rs", find="    F::truncate_from(val % (prime - exclude_to) + exclude_to)", replace="    let span = prime - exclude_to;\n    F::truncate_from(exclude_to + (val % span))")]),
+    dict(prop="C03", name="challenge-span-one-short", expect="RANGE-challenge|shape",
+         edits=[dict(file="ipa-core/src/helpers/hashing.rs", find="    F::truncate_from(val % (prime - exclude_to) + exclude_to)", replace="    F::truncate_from(val % (prime - exclude_to - 1) + exclude_to)")]),
 ]
